@@ -159,3 +159,26 @@ Theorem C01_query_meaning : forall W keys atxt ftxt vtxt K asg c,
              exists f, pe (lvl K) asg f 3 ts = Some (den asg c, []).
 Proof. exact query_meaning. Qed.
 Print Assumptions C01_query_meaning.
+
+(* ---- the fixed fuel of the entry point tparse (the function the judge evaluates) always suffices ---- *)
+From PS Require Import Proofs.FuelP.
+Theorem C01_tparse_complete : forall K asg f ts v,
+  pe (lvl K) asg f 3 ts = Some (v, []) -> tparse (lvl K) asg ts = Some v.
+Proof. exact tparse_complete. Qed.
+Print Assumptions C01_tparse_complete.
+Theorem C01_structure_tparse : forall K asg c, cfg_ok K = true -> wfb K c = true ->
+  tparse (lvl K) asg (conv K false c) = Some (den asg c).
+Proof. intros K asg c HK Hw. destruct (structure_b K asg c HK Hw) as [f Hf]. exact (tparse_complete K asg f _ _ Hf). Qed.
+Print Assumptions C01_structure_tparse.
+Theorem C01_query_meaning_tparse : forall W keys atxt ftxt vtxt K asg c,
+  cfg_ok K = true -> wfb K c = true ->
+  (forall t, In t (conv K false c) -> is_atom t = true -> shapeb (stxt atxt ftxt vtxt t) = true) ->
+  Forall (atom_reads W keys atxt ftxt vtxt) (conv K false c) ->
+  exists ts, read_query W keys (show vb_syntax atxt ftxt vtxt (conv K false c)) = Some ts /\
+             tparse (lvl K) asg ts = Some (den asg c).
+Proof.
+  intros W keys atxt ftxt vtxt K asg c HK Hw Hs Hr.
+  destruct (query_meaning W keys atxt ftxt vtxt K asg c HK Hw Hs Hr) as [ts [Hq [f Hf]]].
+  exists ts. split; [exact Hq|exact (tparse_complete K asg f _ _ Hf)].
+Qed.
+Print Assumptions C01_query_meaning_tparse.
